@@ -3,7 +3,7 @@
 //! Parts:
 //!  D  doubles: every value of the C15 double alphabet at every f64 site of a GDSII library x {Json, Yaml}
 //!     x {to_string+from_str, save+open}; compared bit for bit.
-//!  S  strings: every string of length <= 2 (thorough 3) over a 26-character alphabet of characters special
+//!  S  strings: every string of length <= 2 (thorough 3) over a 27-character alphabet of characters special
 //!     to JSON / YAML, plus a list of whole strings, at every string site of a GDSII library and of a LEF
 //!     library x formats x both paths; compared byte for byte.
 //!  G  structure: GDSII libraries from the shared generator (every element kind, every optional-field
@@ -24,7 +24,7 @@ pub struct C18;
 
 const FMTS: [(&str, SerializationFormat); 2] = [("json", SerializationFormat::Json), ("yaml", SerializationFormat::Yaml)];
 
-pub const SIGMA: [&str; 26] = ["\"", "'", ":", "#", "\\", " ", "\n", "\t", "\r", "-", "?", "[", "{", "&", "*", "!", "|", ">", "%", "@", "`", "~", ",", "\u{e9}", "1", "a"];
+pub const SIGMA: [&str; 27] = ["\"", "'", ":", "#", "\\", " ", "\n", "\t", "\r", "-", "?", "[", "{", "&", "*", "!", "|", ">", "%", "@", "`", "~", ",", "\u{e9}", "1", "a", "\u{0}"];
 
 pub fn whole_strings() -> Vec<String> {
     let v = [
@@ -561,7 +561,7 @@ impl Driver for C18 {
     fn describe(&self, tier: Tier) -> Describe {
         Describe {
             rule: format!(
-                "[doubles] every binary exponent of the GDSII range (-256..=251) x sign x {} fraction patterns at each of {GDS_F64_SITES} f64 sites (UNITS x2, SREF MAG/ANGLE, AREF ANGLE, TEXT MAG) of a GDSII library holding one element of every kind with every optional field; [strings] every string of length <= {} over a 26-character alphabet special to JSON/YAML (quotes, colon, hash, backslash, space, newline, tab, CR, dash, ?, brackets, &, *, !, |, >, %, @, backtick, ~, comma, e-acute, digit, letter) plus {} whole strings (YAML keywords, numbers, document markers, flow/block indicators, leading/trailing/inner whitespace lines, BOM, NEL, U+2028, NUL, DEL, emoji, combining) at each of {GDS_STRING_SITES} GDSII and {LEF_STRING_SITES} LEF string sites; [decimals] at each of {LEF_DECIMAL_SITES} LEF decimal sites (VERSION, SIZE x / y, ORIGIN, layer WIDTH, RECT and POLYGON coordinates, MANUFACTURINGGRID) every decimal with one of 14 mantissas of 1..29 digits (0, 1, 5, 12345, 2^52+1, 2^53+1, 17/18/20/21 digits, 23 nines, 28 digits, 2^95, 2^96-1) x scale in {{0,1,3,6,12,17,20,28}} x sign; [integers] every integer leaf of the full GDSII library's serde form (coordinates, layers, types, dates, flags, plex, attributes, columns / rows) := each of 16 values (0, +-1, 255, 256, i16 / u16 / i32 limits, 2^24, 2^24+-1, 123456789, 2^30) that fits the field; [save sequences] save(A) then save(B) to the same path then open, for pairs A, B whose markup has the same length / B shorter / B longer (GDSII and LEF, both formats): the copy must be B; [structure] full GDSII / LEF libraries, repository .gds and .lef resources; [markup] repository .gds resources and the full library through to_markup + from_markup on files. All x {{Json, Yaml}} x {{to_string+from_str, save+open}}. A state is (value, site); non-trivial = not the default value. Oracle: value equality, f64 sites by bits, strings by bytes, GDSII bytes identical.",
+                "[doubles] every binary exponent of the GDSII range (-256..=251) x sign x {} fraction patterns at each of {GDS_F64_SITES} f64 sites (UNITS x2, SREF MAG/ANGLE, AREF ANGLE, TEXT MAG) of a GDSII library holding one element of every kind with every optional field; [strings] every string of length <= {} over a 27-character alphabet special to JSON/YAML (quotes, colon, hash, backslash, space, newline, tab, CR, dash, ?, brackets, &, *, !, |, >, %, @, backtick, ~, comma, e-acute, digit, letter, NUL) plus {} whole strings (YAML keywords, numbers, document markers, flow/block indicators, leading/trailing/inner whitespace lines, BOM, NEL, U+2028, NUL, DEL, emoji, combining) at each of {GDS_STRING_SITES} GDSII and {LEF_STRING_SITES} LEF string sites; [decimals] at each of {LEF_DECIMAL_SITES} LEF decimal sites (VERSION, SIZE x / y, ORIGIN, layer WIDTH, RECT and POLYGON coordinates, MANUFACTURINGGRID) every decimal with one of 14 mantissas of 1..29 digits (0, 1, 5, 12345, 2^52+1, 2^53+1, 17/18/20/21 digits, 23 nines, 28 digits, 2^95, 2^96-1) x scale in {{0,1,3,6,12,17,20,28}} x sign; [integers] every integer leaf of the full GDSII library's serde form (coordinates, layers, types, dates, flags, plex, attributes, columns / rows) := each of 16 values (0, +-1, 255, 256, i16 / u16 / i32 limits, 2^24, 2^24+-1, 123456789, 2^30) that fits the field; [save sequences] save(A) then save(B) to the same path then open, for pairs A, B whose markup has the same length / B shorter / B longer (GDSII and LEF, both formats): the copy must be B; [structure] full GDSII / LEF libraries, repository .gds and .lef resources; [markup] repository .gds resources and the full library through to_markup + from_markup on files. All x {{Json, Yaml}} x {{to_string+from_str, save+open}}. A state is (value, site); non-trivial = not the default value. Oracle: value equality, f64 sites by bits, strings by bytes, GDSII bytes identical.",
                 Self::doubles_for(tier, 0).len() / 2,
                 tier.pick(2, 3),
                 whole_strings().len()
